@@ -81,6 +81,11 @@ impl Boudot2000RangeProof {
     const s2: u32 = 552;
 
     /* Algorithm 1 Proof of Same Secret */
+    /// What a Fiat-Shamir challenge is the hash of: the values in the order given, as decimal strings separated by commas
+    fn transcript(values: &[&Integer]) -> String {
+        values.iter().map(|v| v.to_string()).collect::<Vec<String>>().join(",")
+    }
+
     fn proof_same_secret<H>(
         x: &Integer,
         r_1: &Integer,
@@ -89,6 +94,8 @@ impl Boudot2000RangeProof {
         h_1: &Integer,
         g_2: &Integer,
         h_2: &Integer,
+        E: &Integer,
+        F: &Integer,
         l: u32,
         t: u32,
         b: &Integer,
@@ -118,7 +125,8 @@ impl Boudot2000RangeProof {
             * Integer::from(h_2.pow_mod_ref(&mu_2, n).unwrap()))
             % n;
 
-        let str = w_1.to_string() + &w_2.to_string();
+        // the challenge binds the statement (the two commitments, the bases, the modulus) to the first message
+        let str = Self::transcript(&[&w_1, &w_2, E, F, g_1, h_1, g_2, h_2, n]);
         let hash = <H as Digest>::digest(str);
         let challenge = Integer::from_digits(hash.as_slice(), Order::MsfBe);
 
@@ -168,7 +176,7 @@ impl Boudot2000RangeProof {
             * &inv_F)
             % n;
 
-        let str = lhs.to_string() + &rhs.to_string();
+        let str = Self::transcript(&[&lhs, &rhs, E, F, g_1, h_1, g_2, h_2, n]);
         let hash = <H as Digest>::digest(str);
         let output = Integer::from_digits(hash.as_slice(), Order::MsfBe);
 
@@ -202,7 +210,7 @@ impl Boudot2000RangeProof {
             % n;
         let r_3 = r_1 - (&r_2 * x).complete();
 
-        let proof_ss = Self::proof_same_secret::<H>(x, &r_2, &r_3, g, h, &F, h, l, t, b, s1, s2, n);
+        let proof_ss = Self::proof_same_secret::<H>(x, &r_2, &r_3, g, h, &F, h, &F, E, l, t, b, s1, s2, n);
         // proof_of_s = {'E': int(E), 'F': int(F), 'proof_ss': proof_ss}
         ProofOfS {
             E: E.clone(),
@@ -237,6 +245,8 @@ impl Boudot2000RangeProof {
     fn proof_large_interval_specific<H>(
         x: &Integer,
         r: &Integer,
+        E: &Integer,
+        C0: &Integer,
         g: &Integer,
         h: &Integer,
         t: u32,
@@ -267,7 +277,9 @@ impl Boudot2000RangeProof {
                 * Integer::from(h.pow_mod_ref(&nu, n).unwrap()))
                 % n;
 
-            let str = omega.to_string();
+            // the challenge binds the statement (the commitment, the commitment the whole range proof is about, the bases, the modulus,
+            // the bound and T) to the first message
+            let str = Self::transcript(&[&omega, E, C0, g, h, n, b, &Integer::from(T)]);
             let hash = <H as Digest>::digest(str);
             C = Integer::from_digits(hash.as_slice(), Order::MsfBe);
 
@@ -293,6 +305,7 @@ impl Boudot2000RangeProof {
     fn verify_large_interval_specific<H>(
         proof_li: &ProofLi,
         E: &Integer,
+        C0: &Integer,
         g: &Integer,
         h: &Integer,
         n: &Integer,
@@ -312,7 +325,7 @@ impl Boudot2000RangeProof {
             * &inv_E)
             % n;
 
-        let str = commit.to_string();
+        let str = Self::transcript(&[&commit, E, C0, g, h, n, b, &Integer::from(T)]);
         let hash = <H as Digest>::digest(str);
         let output = Integer::from_digits(hash.as_slice(), Order::MsfBe);
 
@@ -331,6 +344,7 @@ impl Boudot2000RangeProof {
     fn proof_of_tolerance_specific<H>(
         x: Integer,
         r: Integer,
+        C0: &Integer,
         g: &Integer,
         h: &Integer,
         n: &Integer,
@@ -423,9 +437,9 @@ impl Boudot2000RangeProof {
         let proof_of_square_b =
             Self::proof_of_square::<H>(&x_b_1, &r_b_1, g, h, &E_b_1, l, t, b, s, s1, s2, n);
         let proof_large_i_a =
-            Self::proof_large_interval_specific::<H>(&x_a_2, &r_a_2, g, h, t, l, b, s, n, T);
+            Self::proof_large_interval_specific::<H>(&x_a_2, &r_a_2, &E_a_2, C0, g, h, t, l, b, s, n, T);
         let proof_large_i_b =
-            Self::proof_large_interval_specific::<H>(&x_b_2, &r_b_2, g, h, t, l, b, s, n, T);
+            Self::proof_large_interval_specific::<H>(&x_b_2, &r_b_2, &E_b_2, C0, g, h, t, l, b, s, n, T);
 
         // proof_wt = {
         //     'E_a_1': int(E_a_1), 'E_a_2': int(E_a_2), 'E_b_1': int(E_b_1), 'E_b_2': int(E_b_2),
@@ -448,6 +462,7 @@ impl Boudot2000RangeProof {
     /* Algorithm 8 Verify Proof with Tolerance Specific factor 2 ** T */
     fn verify_of_tolerance_specific<H>(
         proof_wt: &ProofWt,
+        C0: &Integer,
         g: &Integer,
         h: &Integer,
         E: &Integer,
@@ -497,6 +512,7 @@ impl Boudot2000RangeProof {
             let b_li = Self::verify_large_interval_specific::<H>(
                 proof_large_i_a,
                 E_a_2,
+                C0,
                 g,
                 h,
                 n,
@@ -507,6 +523,7 @@ impl Boudot2000RangeProof {
             ) && Self::verify_large_interval_specific::<H>(
                 proof_large_i_b,
                 E_b_2,
+                C0,
                 g,
                 h,
                 n,
@@ -547,7 +564,7 @@ impl Boudot2000RangeProof {
         let E_prime = Integer::from(E.pow_mod_ref(&(Integer::from(2).pow(T)), n).unwrap());
 
         let proof_of_tolerance = Self::proof_of_tolerance_specific::<H>(
-            x_prime, r_prime, g, h, n, a, b, t, l, s, s1, s2, T,
+            x_prime, r_prime, E, g, h, n, a, b, t, l, s, s1, s2, T,
         );
 
         Self {
@@ -575,6 +592,7 @@ impl Boudot2000RangeProof {
         if self.E_prime == Integer::from(self.E.pow_mod_ref(&Integer::from(2).pow(T), n).unwrap()) {
             let res_verify_ts = Self::verify_of_tolerance_specific::<H>(
                 &self.proof_of_tolerance,
+                &self.E,
                 g,
                 h,
                 &self.E_prime,
